@@ -15,9 +15,31 @@ def adt_ident(p, ident, crate=None):
     return c2[0] if len(c2) == 1 else None
 
 
-def ceremony(p, name, adt=AUTH, trait=None):
-    """async body of an inherent async method"""
-    return p.async_body(p.method(adt, name, trait=trait))
+# Private functions that rule modules still address by name (their decision tables are extracted as units).  They are
+# kept as calls in the inlined views; every other non-exported helper — in particular any helper a refactoring
+# introduces — is inlined.  (Shrinking this list = restating the rule on the inlined view.)
+NAMED_PRIVATE = (
+    "Authenticator::check_user", "Authenticator::make_extensions", "Authenticator::get_extensions", "Authenticator::get_prf",
+    "CoseKeyPair::from_secret_key", "private_key_from_cose_key", "Client::registration_extension_outputs",
+    "Client::auth_extension_ctap2_input", "Client::registration_extension_ctap2_input", "Client::map_rk",
+    "Authenticator::choose_algorithm", "RpIdVerifier::assert_domain",
+)
+
+
+def keep_named(callee):
+    from . import names
+    return any(names.is_(callee.path, pat) for pat in NAMED_PRIVATE)
+
+
+def ceremony(p, name, adt=AUTH, trait=None, raw=False, keep=(keep_named,)):
+    """async body of an inherent async method — by default as an inlined view: the method together with the
+    crate-private helpers it calls (rules/inline.py), so that moving code between the method and a private helper
+    changes nothing"""
+    co = p.async_body(p.method(adt, name, trait=trait))
+    if raw or co is None:
+        return co
+    from . import inline
+    return inline.inlined(p, co, keep=keep)
 
 
 def find_aggs(body, adt_last_ident, variant=None):
